@@ -64,7 +64,7 @@ class C20:
               'listing_order_non_sorted', 'locale_cannot_encode', 'relative_path_via_virtual_cwd', 'roundtrip_checked', 'actor_unlink',
               'interrupt_delivered', 'load_equal_checked', 'dump_equal_checked', 'converter_equal_checked', 'bom_input', 'crlf_input',
               'flipped_byte_input', 'rerun_after_fault_exact', 'edited_in_place_same_size', 'big_input_over_24k', 'output_is_the_input_file', 'blank_line_in_input', 'dumped_a_loaded_document', 'output_directory_removed_externally',
-              'non_nfc_input', 'stdout_cannot_encode_progress_line', 'header_only_input', 'input_of_exactly_one_buffer', 'cell_over_csv_field_limit', 'dir_mode_with_output_path', 'target_holds_same_text_with_crlf']
+              'non_nfc_input', 'stdout_cannot_encode_progress_line', 'header_only_input', 'input_of_exactly_one_buffer', 'cell_over_csv_field_limit', 'dir_mode_with_output_path', 'target_holds_same_text_with_crlf', 'symlink_among_the_inputs']
 
     # ================================================================ plan
     def gen_plan(self, seed, index, tier):
@@ -112,6 +112,15 @@ class C20:
             ops.append(op)
             inputs.append((path, kind, di))
         kern_inputs = [p for p, k, _ in inputs if p.endswith(('.krn', '.kern'))]
+        lrng = st['links']                  # own stream: the draws above and below are unchanged
+        if kern_inputs and lrng.random() < 0.12:
+            # a symbolic link to one of the inputs, in another directory: directory-mode conversions find it by its own name and
+            # write their output next to the LINK (the CLI's contract is about the path as found), reading the target's content
+            tgt = lrng.choice(kern_inputs)
+            ldir = lrng.choice([d for d in ('in', 'in/sub', 'data', 'in/other') if posixpath.join(WORK, d) != posixpath.dirname(tgt)])
+            lpath = posixpath.join(WORK, ldir, 'lnk' + lrng.choice(['.krn', '.kern']))
+            ops.append({'op': 'symlink', 'path': lpath,
+                        'target': posixpath.relpath(tgt, posixpath.dirname(lpath)) if lrng.random() < 0.6 else tgt})
         n_ops = rng.randint(2, 8)
 
         def as_given(path):
@@ -440,6 +449,9 @@ class C20:
             return sum(f.fired for f in fs.faults if f.kind not in ('eintr_read', 'eintr_write')) + fs.stats.get('actor_unlink', 0)
 
         def frame_check(before, targets, opname, new_dirs_allowed):
+            # an output whose name is a symbolic link is written THROUGH the link (that is what open() does): the file it points to
+            # is the target then
+            targets = set(targets) | {fs.resolve(t) for t in targets if fs.resolve(t)}
             after = fs.snapshot()
             actor_paths = {s.get('target') for s in plan['fs'].get('actor', [])} | {s.get('path') for s in plan['fs'].get('actor', []) if s['act'] == 'unlink'}
             for p, data in before['files'].items():
@@ -531,6 +543,11 @@ class C20:
                 if kind == 'put':
                     fs.put(op['path'], render_bytes(op))
                     log.emit('user', 'put', op['path'], digest_of(fs.get(op['path'])))
+                    continue
+                if kind == 'symlink':
+                    fs.symlink(op['path'], op['target'])
+                    bump(probes, 'symlink_among_the_inputs')
+                    log.emit('user', 'symlink', [op['path'], op['target']], None)
                     continue
                 if kind == 'rmtree':
                     pre = op['dir'].rstrip('/') + '/'
@@ -737,7 +754,7 @@ class C20:
         """The CLI contract: files directly in ``root`` (or at any depth with -r) whose name ends with one of the suffixes."""
         out = []
         pre = root.rstrip('/') + '/'
-        for p in sorted(fs.files()):
+        for p in sorted(set(fs.files()) | {q for q in fs.links() if fs.get(q) is not None}):
             if not p.startswith(pre):
                 continue
             rel = p[len(pre):]
